@@ -3,9 +3,12 @@
 cd "$(dirname "$0")/.."
 P="$1"; shift
 git -C /repo apply "$P" || { echo "patch does not apply"; exit 2; }
+# evidence written while a seeded change is applied must never be committed: keep the clean-tree files
+rm -rf /var/tmp/evidence.keep; cp -r evidence /var/tmp/evidence.keep
 for id in "$@"; do
   s=$(date +%s); out=$(timeout 3000 ./check $id quick 2>&1); rc=$?
   echo "$id rc=$rc $(( $(date +%s) - s ))s $(echo "$out" | grep -E 'VIOLATION|KNOWN' | head -2 | tr '\n' ' ')"
 done
 git -C /repo checkout -- .
+rm -rf evidence; mv /var/tmp/evidence.keep evidence
 git -C /repo status --short | grep -v '^??' | head -3
